@@ -83,6 +83,13 @@ def jobs(tier, seed):
     for name in ('four-triples', 'window3', 'two-triples', 'loop4', 'triples-pair-single'):
         fam = EXTRA4[name]
         out.append({'k': 4, 'fam': [list(c) for c in fam], 'present': 'asis', 'cfgs': [(0.5, name != 'loop4', 'all', 10.0)], 'seed': seed, 'schedule': 'one-sweep-calls'})
+    # call histories on one engine with ONE potentials object: solved to convergence, the tables updated in place, solved again
+    # (also: the same object passed again unchanged, and a new object after that)
+    for i, fam in enumerate(f3):
+        if len(fam) >= 2 and (tier == 'thorough' or i % 3 == 0):
+            out.append({'k': 3, 'fam': [list(c) for c in fam], 'present': 'sorted', 'cfgs': [(0.5, i % 2 == 0, 'all', 10.0)], 'seed': seed, 'schedule': 'same-object-updated'})
+    for name in ('window3', 'loop4'):
+        out.append({'k': 4, 'fam': [list(c) for c in EXTRA4[name]], 'present': 'asis', 'cfgs': [(0.5, True, 'all', 10.0)], 'seed': seed, 'schedule': 'same-object-updated'})
     for fam in ([('A', 'B', 'C'), ('A', 'B', 'D')], [('A', 'B', 'C'), ('B', 'C', 'D'), ('C', 'D', 'A')], [('A', 'B'), ('B', 'C'), ('C', 'A')]):
         for d_ in (0.5, 0.2):
             out.append({'k': 4, 'fam': [list(c) for c in fam], 'present': 'asis', 'cfgs': [(d_, d_ == 0.5, 'zero-child', 10.0)], 'seed': seed})
@@ -156,6 +163,14 @@ def run_cfg(job, cfg):
         if cand:
             zero_cell = (cand[0], tuple([0] * len(cand[0])))
             pots[zero_cell[0]].values[zero_cell[1]] = -np.inf
+    if job.get('schedule') == 'same-object-updated':
+        final = {r: np.array(pots[r].values, copy=True) for r in regs}
+        for r in regs:
+            pots[r].values[...] = rng.randn(*dom.project(r).shape)
+        rg.belief_propagation(pots)          # converged call on other contents
+        rg.belief_propagation(pots)          # the same object again, unchanged
+        for r in regs:
+            pots[r].values[...] = final[r]   # caller updates its tables in place (as an optimiser's += step does)
     snap_ = {r: np.array(pots[r].values, copy=True) for r in regs}
     if job.get('schedule') == 'one-sweep-calls':
         # the engine is driven to convergence by many calls of a single sweep each (LocalInference's default schedule)
@@ -198,7 +213,7 @@ def run_cfg(job, cfg):
     g = th - np.log(np.maximum(q, 1e-300)) - 1
     lam = np.linalg.lstsq(A.T, g, rcond=None)[0]
     dual = float(np.abs(A.T @ lam - g).max())
-    tol_ = 1e-6 if job.get('schedule') else 1e-7
+    tol_ = 1e-6 if job.get('schedule') == 'one-sweep-calls' else 1e-7
     if primal > tol_:
         fails.append(('not-consistent', 'pseudo-marginals disagree on a shared sub-region: primal residual %.3g (all nested region pairs)' % primal))
     if dual > tol_:
